@@ -22,6 +22,7 @@ type c17Op struct {
 	IDs    []int                `json:"ids,omitempty"`
 	Search *models.SearchRequest `json:"search,omitempty"`
 	Node   int                  `json:"node,omitempty"` // down/up
+	Hang     int                `json:"hang,omitempty"`     // update/delete/search: 1 + index of a server that hangs (never answers, never executes) for this request
 	Oversize int                `json:"oversize,omitempty"` // update: 1 + index into Points of a point whose merged document exceeds the size limit (its shard rejects its part of the batch)
 }
 
@@ -160,6 +161,23 @@ func (c17) Generate(r *rand.Rand, tier string) (sim.Config, any) {
 	if down >= 0 {
 		p.Ops = append(p.Ops, c17Op{Kind: "up", Node: down})
 	}
+	// a hung shard server (rpc timeout instead of a refused connection) for some requests
+	isDown := -1
+	for i := range p.Ops {
+		switch p.Ops[i].Kind {
+		case "down":
+			isDown = p.Ops[i].Node
+		case "up":
+			isDown = -1
+		case "update", "delete", "search":
+			if p.NServers >= 2 && isDown < 0 && p.Ops[i].Oversize == 0 && r.IntN(6) == 0 {
+				h := r.IntN(p.NServers)
+				if h != p.Ops[i].Entry {
+					p.Ops[i].Hang = h + 1
+				}
+			}
+		}
+	}
 	return cfg, p
 }
 
@@ -297,8 +315,26 @@ func (c17) Execute(env *Env) {
 			}
 			// the record lives on the user's home server; if that one is down nothing can be asked
 			c, ok := getCol(entry)
+			prevDown := down
+			if op.Hang > 0 && down == "" && ok {
+				method := map[string]string{"update": "RPCUpdatePoints", "delete": "RPCDeletePoints", "search": "RPCSearchPoints"}[op.Kind]
+				down = NodeAddr(op.Hang - 1)
+				net.mu.Lock()
+				net.faults = append(net.faults, &NetFault{Kind: "hang", Method: method, Node: down, Chunk: -1, sticky: true})
+				net.mu.Unlock()
+				env.Stat("server-hung", 1)
+			}
+			clearHang := func() {
+				if op.Hang > 0 && prevDown == "" {
+					net.mu.Lock()
+					net.faults = nil
+					net.mu.Unlock()
+					down = ""
+				}
+			}
 			if !ok {
 				env.Stat("home-server-down", 1)
+				clearHang()
 				continue
 			}
 			member, shardNode, err := shardMembership(w, "alice", "col")
@@ -409,17 +445,21 @@ func (c17) Execute(env *Env) {
 						return
 					}
 					env.Stat("search-failed-shard-down", 1)
+					clearHang()
 					continue
 				}
 				if len(c.ShardIds) == 0 {
+					clearHang()
 					continue
 				}
 				if msg := checkClusterSearch(model, p.Schema, *op.Search, toAnswer(res, nil), shardsDown == 0); msg != "" {
 					env.Violate("wrong-answer", "cluster-search-result", "%s: request %s: %s", where, jsonStr(op.Search), msg)
 					return
 				}
+				clearHang()
 				continue
 			}
+			clearHang()
 			// after a write: exactly-once placement and readability through every live node
 			member, _, err = shardMembership(w, "alice", "col")
 			if err != nil {
